@@ -50,7 +50,17 @@ func optNames(bits int) string {
 	return strings.Join(on, "+")
 }
 
-func newTokenizer(kind string) tokenizers.ITokenizer {
+func newTokenizer(kind string) tokenizers.ITokenizer { return newTokenizerUsed(kind, "") }
+
+// newTokenizerUsed builds the tokenizer of the given kind; for the kinds with a user configuration the object
+// tokenizes `warm` (when not empty) before the first and after every single configuration call, the way a caller
+// does who configures an instance it is already using: the finished configuration is all that counts.
+func newTokenizerUsed(kind string, warm string) tokenizers.ITokenizer {
+	use := func(t tokenizers.ITokenizer) {
+		if warm != "" {
+			t.TokenizeBuffer(warm)
+		}
+	}
 	switch kind {
 	case "generic":
 		return generic.NewGenericTokenizer()
@@ -62,32 +72,56 @@ func newTokenizer(kind string) tokenizers.ITokenizer {
 		return mtok.NewMustacheTokenizer()
 	case "generic+sym":
 		t := generic.NewGenericTokenizer()
-		for _, s := range []string{"...", "=:~", "-->", "::=", "≠≠", "<=>", "<!--", "=:~=:~"} {
+		use(t)
+		// "::" comes after "::=": a prefix registered later than the longer symbol
+		for _, s := range []string{"...", "=:~", "-->", "::=", "≠≠", "<=>", "<!--", "=:~=:~", "::"} {
 			t.SymbolState().Add(s, tokenizers.Symbol)
+			use(t)
 		}
 		// single characters with a class of their own (they start no longer symbol)
 		t.SymbolState().Add(";", tokenizers.Special)
 		t.SymbolState().Add("¤", tokenizers.Special)
+		use(t)
 		t.SetCharacterState('¤', '¤', t.SymbolState())
+		use(t)
 		t.SetCharacterState('≠', '≠', t.SymbolState())
+		use(t)
 		t.WordState().SetWordChars('≠', '≠', false) // a symbol character does not continue a word either
+		use(t)
 		return t
 	case "expression+cpp":
 		t := ctok.NewExpressionTokenizer()
+		use(t)
 		t.SetCommentState(generic.NewCppCommentState())
+		use(t)
 		t.SetCharacterState('/', '/', t.CommentState())
+		use(t)
 		return t
 	case "generic+ws":
 		t := generic.NewGenericTokenizer()
+		use(t)
 		t.WhitespaceState().SetWhitespaceChars('\n', '\n', false)
+		use(t)
 		t.SetCharacterState('\n', '\n', t.SymbolState())
+		use(t)
 		t.WordState().SetWordChars(0x3000, 0x303f, false)
+		use(t)
 		t.SetCharacterState(0x3000, 0x303f, t.SymbolState())
+		use(t)
+		return t
+	case "expression+dis":
+		t := ctok.NewExpressionTokenizer()
+		use(t)
+		t.WordState().SetWordChars(0x3000, 0x303f, false)
+		use(t)
 		return t
 	case "csv+cfg":
 		t := csv.NewCsvTokenizer()
+		use(t)
 		t.SetQuoteSymbols([]rune{'«', '\'', '“'})
+		use(t)
 		t.SetFieldSeparators([]rune{'，', ';', '|'})
+		use(t)
 		return t
 	}
 	panic("unknown tokenizer kind " + kind)
